@@ -19,12 +19,16 @@ The theorems below are the formal statements over the model; their proofs are in
 namespace Ross.Props
 open Ross
 
-/-- C15: a dispatched packet reaches exactly the recipients, in id order, each once, unmodified, and
-the packets they transmit go out in that order; nothing else about the node changes -/
+/-- C15: a dispatched packet reaches exactly the recipients, in id order, each once, unmodified; the packets their
+callbacks send to other devices go out in that order (`wireSends`), and those they send to the device's own address are
+looped back to every registered handler (`loopCalls`, C16) — neither disturbs the delivery of the current packet
+(`callsOf`) to the remaining handlers; nothing else about the node changes -/
 theorem C15_dispatch_spec (s : Proto) (p : Packet) (owned : Bool) :
     Proto.SameCfg s (s.dispatch p owned) ∧
     callsOf (s.dispatch p owned).log = callsOf s.log ++ (recipients s.handlers owned).map (fun h => (h.token, p)) ∧
-    txOf (s.dispatch p owned).log = txOf s.log ++ (recipients s.handlers owned).flatMap (·.sends) :=
+    ncallsOf (s.dispatch p owned).log = ncallsOf s.log ++
+      (recipients s.handlers owned).flatMap (fun h => loopCalls s.addr s.handlers h.sends) ∧
+    txOf (s.dispatch p owned).log = txOf s.log ++ (recipients s.handlers owned).flatMap (fun h => wireSends s.addr h.sends) :=
   Ross.dispatch_spec s p owned
 
 /-- C15: `tick` consumes one link result; a packet for us or for everybody goes to every handler,
